@@ -184,7 +184,7 @@ func runC02(c *core.Ctx) {
 
 	// ---- R6 (shared with C17-R1): Transport.Flush of every shipped wrapper really drains its buffered writer
 	c.Rule("R6", "every wrapper variant that owns a bufio.Writer flushes that writer in Flush and returns its error (nothing stays parked in a transport buffer)", 2)
-	importObligations(c, runC17, "R6", func(o *core.Obligation) bool { return strings.Contains(o.Key, "/Flush/") })
+	importObligations(c, runC17, "R6", func(o *core.Obligation) bool { return strings.Contains(o.Key, "/Flush/") || o.Rule == "R5" })
 
 	// ---- R7 the sender can always make progress: its batch holds at least one packet
 	c.Rule("R7", "the sender's batch capacity is at least 1 whenever the queue exists (otherwise the drain loop never dequeues and spins)", 1)
